@@ -60,7 +60,7 @@ def real_cases(ctx):
     return real.scenarios(max_procs=3, min_procs=2, max_jobs=5, token_pct=100, fail_pct=10)
 
 
-PARTS.append(Part("real", prop_real, strategy=real_cases, quick=16, thorough=240, shrink_budget=5))
+PARTS.append(Part("real", prop_real, strategy=real_cases, quick=16, thorough=240, shrink_budget=5, collect=True))
 MIN_CLASSES["quick"]["real"] = 12
 
 # --- another scheduler looks at the token while a job of ours is being started -------------------
@@ -214,7 +214,7 @@ def prop_two(ctx, case):
     ctx.record(needs_refusal and not res["sequential"], labels, sample={"case": case, "result": res})
 
 
-PARTS.append(Part("two-schedulers-one-process", prop_two, strategy=two_cases, quick=320, thorough=4800, shrink_budget=20))
+PARTS.append(Part("two-schedulers-one-process", prop_two, strategy=two_cases, quick=320, thorough=4800, shrink_budget=20, collect=True))
 MIN_CLASSES["quick"]["second-waited-for-the-first"] = 40
 MIN_CLASSES["quick"]["token-asked-twice-with-different-totals"] = 40
 TIMEOUT = {"quick": 900, "thorough": 5400}
